@@ -44,7 +44,50 @@ _IDX = re.compile(r"^(.*?)((?:_\d{2,3})+)$")
 def parse(payload):
     from pyrtcm import RTCMMessage
 
-    return RTCMMessage(payload=payload)
+    warm(payload)
+    msg = RTCMMessage(payload=payload)
+    num = (payload[0] << 4) | (payload[1] >> 4) if len(payload) >= 2 else 0
+    if 1070 < num < 1140 and payload[-1] % 4 == 0:
+        # an MSM definition must be decodable under every label option value (0, 2: the others besides the default);
+        # a raise here propagates to the caller exactly like a failure of the decode above
+        for opt in (2, 0):
+            other = RTCMMessage(payload=payload, labelmsm=opt)
+            if [k for k in vars(other) if not k.startswith("_")] != [k for k in vars(msg) if not k.startswith("_")]:
+                raise AssertionError(f"labelmsm={opt} yields different attribute names than labelmsm=1")
+        OPTIONS_TRIED[0] += 1
+    return msg
+
+
+OPTIONS_TRIED = [0]
+
+
+def warm(payload):
+    """Before every decode, the neighbours of its identity (message number / 4076 sub-type differing in one bit) are
+    parsed as short messages: whether an identity has a definition must not depend on what was parsed before."""
+    from pyrtcm import RTCMMessage
+
+    if len(payload) < 3:
+        return
+    num = (payload[0] << 4) | (payload[1] >> 4)
+    k = payload[-1] + len(payload)
+    qs = []
+    if num == 4076:
+        v = int.from_bytes(payload[:3], "big")
+        for bit in (7, k % 7):
+            qs.append((v ^ (1 << (bit + 1))).to_bytes(3, "big") + payload[3:9])
+    else:
+        for bit in (11, k % 11):
+            n2 = num ^ (1 << bit)
+            qs.append(bytes([n2 >> 4, ((n2 & 0xF) << 4) | (payload[1] & 0x0F)]) + payload[2:9])
+    for q in qs:
+        try:
+            RTCMMessage(payload=q)
+        except Exception:
+            pass
+    WARMED[0] += len(qs)
+
+
+WARMED = [0]
 
 
 def attrs(msg):
